@@ -210,7 +210,12 @@ def run_suite(suite, tier, seed, extra=None, replay=None, timeout=7200):
     env["GGV_REPO"] = REPO
     env["GGV_VERIF"] = VERIF
     env["GGV_CACHE"] = CACHE
-    p = subprocess.run(cmd, stdout=subprocess.PIPE, stderr=subprocess.PIPE, text=True, env=env, timeout=timeout, cwd=VERIF)
+    if tier != "thorough":
+        timeout = min(timeout, 2400)
+    try:
+        p = subprocess.run(cmd, stdout=subprocess.PIPE, stderr=subprocess.PIPE, text=True, env=env, timeout=timeout, cwd=VERIF)
+    except subprocess.TimeoutExpired:
+        return None, "suite %s did not terminate within %d s (the analysis, run in-process, hangs or is far too slow)" % (suite, timeout)
     if p.returncode != 0:
         return None, "suite %s exited %d:\n%s" % (suite, p.returncode, (p.stderr or "")[-4000:])
     try:
@@ -291,6 +296,10 @@ def run_property(pid, tier, seed):
                 suite_errors.append(err)
             else:
                 summaries.append(sm)
+                if not sm.get("evaluations") and not sm.get("disagreements"):
+                    # a suite that compared nothing decides nothing (e.g. its generated programs did not load)
+                    suite_errors.append("suite %s %s evaluated nothing: %s" % (name, extra if not isinstance(extra, dict) else {k: v for k, v in extra.items() if k != "binary"},
+                                                                            "; ".join(sm.get("notes") or [])[:1500]))
     else:
         if not st["harness"]:
             suite_errors.append("correspondence harness does not build against /repo (go build failed)")
